@@ -31,6 +31,9 @@ pub struct Reference {
     /// a quiescence node with a king on the board but no generated move (window-dependent by construction)
     pub weird: bool,
     pub q_captures: u64,
+    /// terminal nodes met: [interior mate, interior stalemate, depth-1 layer mate, depth-1 layer stalemate, quiescence king-less]
+    pub terminals: [u64; 5],
+    pub max_q_ply: u8,
 }
 
 impl Reference {
@@ -49,7 +52,11 @@ impl Reference {
             if g.king_exists(player) && !g.is_targeted(g.get_king_position(player), player) {
                 return 0;
             }
+            self.terminals[4] += 1;
             return Score::MIN as i32 + 3000 + rd as i32;
+        }
+        if rd > self.max_q_ply {
+            self.max_q_ply = rd;
         }
         let mut best = stand_pat;
         for &m in &moves {
@@ -73,8 +80,10 @@ impl Reference {
         let moves: MoveBuf = eng::moves(g, false);
         if moves.is_empty() {
             if g.king_exists(player) && !g.is_targeted(g.get_king_position(player), player) {
+                self.terminals[3] += 1;
                 return 0;
             }
+            self.terminals[2] += 1;
             return Score::MIN as i32 + 2000 + rd as i32;
         }
         let mut best = i32::MIN;
@@ -104,8 +113,10 @@ impl Reference {
         let moves: MoveBuf = eng::moves(g, true);
         if moves.is_empty() {
             if g.king_exists(player) && !g.is_targeted(g.get_king_position(player), player) {
+                self.terminals[1] += 1;
                 return 0;
             }
+            self.terminals[0] += 1;
             return Score::MIN as i32 + 100 + rd as i32;
         }
         let mut best = i32::MIN;
@@ -203,7 +214,7 @@ impl Prop for C09 {
         let g = Game::new(&fen).map_err(|e| Fail::new("sane-position-not-importable", e.to_string()))?;
         // depth 5 and 6 only where the exhaustive reference is still feasible: at most six men
         let depth = if p.men() <= 6 { case.depth.clamp(1, 6) } else { case.depth.clamp(1, 4) };
-        let mut rf = Reference { nodes: 0, weird: false, q_captures: 0 };
+        let mut rf = Reference { nodes: 0, weird: false, q_captures: 0, terminals: [0; 5], max_q_ply: 0 };
         let mut gc = g.clone();
         let want = match eng::guarded(|| rf.root(&mut gc, depth)) {
             Ok(v) => v,
@@ -223,6 +234,17 @@ impl Prop for C09 {
         ev.class(&format!("depth_{}", depth));
         if clamp(want).abs() == 15000 {
             ev.class("mate_range_score");
+        }
+        for (i, name) in ["tree_with_checkmate_at_an_interior_node", "tree_with_stalemate_at_an_interior_node", "tree_with_no_move_in_check_at_the_depth_1_layer", "tree_with_no_move_not_in_check_at_the_depth_1_layer", "tree_with_king_captured_in_quiescence"].iter().enumerate() {
+            if rf.terminals[i] > 0 {
+                ev.class(name);
+            }
+        }
+        if rf.max_q_ply >= depth + 4 {
+            ev.class("tree_with_capture_sequences_of_4_or_more_plies_below_the_horizon");
+        }
+        if p.in_check(p.white) {
+            ev.class("root_in_check");
         }
         if clamp(got) != clamp(want) {
             return Err(Fail::new(
